@@ -53,6 +53,7 @@ ASSUMPTIONS = [
 ]
 TRUSTED = ["Python's pty/tty modules and the kernel's pty line discipline in raw mode (bytes pass unchanged)",
            "the independent SGR reader in gen/c18.py (regex ESC [ digits (; digits)* m and the ECMA-48 meaning of 0, 1, 22, 30-37, 40-47)"]
+RELEASE_TOO = True          # the cases also run through the release-profile harness (see ./check)
 EXHAUSTIVE = {"quick": True, "thorough": True}
 ENV_NAMES = ["NO_COLOR", "CLICOLOR_FORCE", "CLICOLOR"]
 SGR_RE = re.compile(rb"\x1b\[([0-9;]*)m")
